@@ -13,3 +13,4 @@ for P in "$@"; do
 done
 for i in 1 2 3 4 5; do git -C /repo checkout -- . && break; sleep 1; done
 ./bin/goextract /repo coq/gen
+(cd /verif/harness && GOFLAGS=-mod=mod GOPROXY=off GOSUMDB=off GOTOOLCHAIN=local CGO_ENABLED=0 go build -tags verif -o ../bin/harness .)
